@@ -73,7 +73,7 @@ def gen(r, tier, i):
     # (the last tick of a call is then cut short, and the next call starts a new tick)
     runs = [r.choice([0.5, 1, 1.5, 2.5, 3, 4]) for _ in range(r.randint(2, 4))] if r.random() < 0.35 else None
     return {'events': events, 'share': share, 'ts': r.choice([0.5, 1, 2]), 'run': r.choice([4, 6, 8]), 'runs': runs,
-            'again': r.random() < 0.3,
+            'again': r.random() < 0.3, 'declared_acc': r.random() < 0.4,
             'entry': r.choice(['direct', 'add_timeline', 'add_timeline_paths', 'experiment']), 'other': r.random() < 0.4}
 
 
@@ -169,6 +169,11 @@ def run(spec):
     driven = sorted({tuple(v) for _, ch in events for v, _ in ch})
     ports = sorted({v[0] for v in driven})
 
+    def declared(var):
+        if not spec.get('declared_acc'):
+            return 'set'
+        return ['set', 'accumulate', 'nonnegative_accumulate'][driven.index(var) % 3]
+
     class Bump(Step):
         def ports_schema(self):
             sch = {}
@@ -177,7 +182,9 @@ def run(spec):
                 for k in var[:-1]:
                     node = node.setdefault(k, {})
                 # (the declared default differs from every value the events set and from the initial 0)
-                node[var[-1]] = {'_default': 5, '_emit': True, '_updater': 'set'}
+                # (every second variable declares an accumulating updater: an event still SETS it - the event's
+                # update names its own updater - and the step's +1 is then an increment)
+                node[var[-1]] = {'_default': 5, '_emit': True, '_updater': declared(var)}
             return sch
 
         def next_update(self, timestep, states):
@@ -190,7 +197,7 @@ def run(spec):
                     node = upd
                     for k in var[:-1]:
                         node = node.setdefault(k, {})
-                    node[var[-1]] = x + 1
+                    node[var[-1]] = (x + 1) if declared(var) == 'set' else 1
             return upd
 
     class Other(Process):
